@@ -142,6 +142,12 @@ enum St {
     Decl { v: usize, init: Option<Ex> },
     Assign { dest: Dest, op: &'static str, rhs: Ex },
     Ins { op: i32, args: Vec<Ex> },
+    /// instruction call with pseudo-arguments: `@mask=` (the mask the encoder would compute anyway), `@arg0=`, `@pop=`
+    InsP { op: i32, args: Vec<Ex>, mask: bool, arg0: Option<i32>, pop: bool },
+    /// instruction call given as a raw blob (LowerArgs::Unknown)
+    InsBlob { op: i32, blob: String, mask: Option<i32>, arg0: Option<i32> },
+    /// the scratch-forbidding instruction in another spelling: 1 `@blob=""`, 2 `@mask=0`, 3 `@blob="01000000"`, 4 blob + `@mask=0` + `@arg0=0`
+    AntiF(u8),
     Block(Vec<St>),
     If { a: Ex, cmp: &'static str, b: Ex, then: Vec<St>, els: Option<Vec<St>> },
     While { a: Ex, cmp: &'static str, b: Ex, body: Vec<St>, do_while: bool },
@@ -165,7 +171,7 @@ struct Sub { name: String, params: Vec<usize>, body: Vec<St>, vars: Vec<Var> }
 enum LArg { Reg(i32, Ty), Imm(i32), Local(u32, Ty), Switch(Vec<Option<LArg>>), Label, TimeOf }
 
 #[derive(Clone, Debug)]
-enum LStmt { Instr { op: i32, args: Vec<LArg> }, Label, Alloc(u32), Free(u32) }
+enum LStmt { Instr { op: i32, args: Vec<LArg> }, BlobInstr { op: i32 }, Label, Alloc(u32), Free(u32) }
 
 #[derive(Clone, Copy, PartialEq, Debug)]
 enum AId { Reg(i32), Def(u32) }
@@ -367,7 +373,9 @@ impl<'a> Lower<'a> {
                 }
             },
             St::Assign { dest, op, rhs } => { let dv = self.dest_var(dest); self.assign(&dv, op, &LE::Src(rhs)); },
-            St::Ins { op, args } => {
+            St::InsBlob { op, .. } => self.out.push(LStmt::BlobInstr { op: *op }),
+            St::AntiF(f) => { let a = self.lang.anti_op.unwrap(); if *f == 2 { self.instr(a, vec![]) } else { self.out.push(LStmt::BlobInstr { op: a }) } },
+            St::Ins { op, args } | St::InsP { op, args, .. } => {
                 let mut temps = vec![];
                 let mut largs = vec![];
                 for e in args {
@@ -474,6 +482,9 @@ struct Gen<'a> {
     hist: &'a mut BTreeMap<&'static str, u64>,
     budget: i32,
     sw_len: usize,
+    /// a pool register this sub names ONLY as an argument of calls carrying pseudo-arguments
+    reserved: Option<(i32, Ty)>,
+    reserved_mask_only: bool,
 }
 
 const USER_OPS: [(i32, &str); 8] = [(900, ""), (901, "S"), (902, "f"), (903, "SS"), (904, "Sf"), (905, "ff"), (906, "SSS"), (907, "SfSf")];
@@ -488,11 +499,13 @@ impl<'a> Gen<'a> {
     fn pick_reg(&mut self, ty: Ty) -> i32 {
         // registers of the natural type, biased towards the program's favourite mentions
         let (pool, other) = match ty { Ty::I => (&self.lang.pool_i, &self.lang.other_i), Ty::F => (&self.lang.pool_f, &self.lang.other_f) };
-        let fav: Vec<i32> = self.mention_bias.iter().copied().filter(|r| pool.contains(r) || other.contains(r)).collect();
+        let res = self.reserved.map(|r| r.0);
+        let fav: Vec<i32> = self.mention_bias.iter().copied().filter(|r| (pool.contains(r) || other.contains(r)) && Some(*r) != res).collect();
         if !fav.is_empty() && self.rng.chance(5, 6) { return *self.rng.pick(&fav); }
         if !other.is_empty() && (pool.is_empty() || self.rng.chance(1, 2)) { return *self.rng.pick(other); }
+        let pool: Vec<i32> = pool.iter().copied().filter(|r| Some(*r) != res).collect();
         if pool.is_empty() { return other[0]; }
-        *self.rng.pick(pool)
+        *self.rng.pick(&pool)
     }
 
     fn reg_atom(&mut self, ty: Ty) -> Ex {
@@ -581,6 +594,18 @@ impl<'a> Gen<'a> {
         Dest::Reg { id, ty, alias }
     }
 
+    /// the reserved register, named as the argument of a call that carries pseudo-arguments
+    fn reserved_stmt(&mut self) -> St {
+        let (id, ty) = self.reserved.unwrap();
+        self.bump("reserved_reg_pseudo_call");
+        let alias = self.lang.alias.contains_key(&id) && self.rng.chance(1, 2);
+        let e = Ex::Reg { id, ty, alias, sigil: true };
+        let op = if ty == Ty::I { 901 } else { 902 };
+        let (mask, arg0, pop) = if self.reserved_mask_only || self.rng.chance(1, 2) { (true, None, false) }
+                                else if self.rng.chance(1, 2) { (false, Some(2), false) } else { (true, Some(0), true) };
+        St::InsP { op, args: vec![e], mask, arg0, pop }
+    }
+
     fn new_var(&mut self, ty: Ty, prefix: &str, is_param: bool) -> usize {
         let def = self.next_def; self.next_def += 1;
         self.vars.push(Var { name: format!("{}{}", prefix, self.vars.len()), ty, def, is_param });
@@ -617,6 +642,7 @@ impl<'a> Gen<'a> {
         let c = self.rng.below(100);
         let edepth = self.rng.range(0, 3) as u32;
         self.sw_len = self.rng.range(2, 4) as usize;
+        if self.reserved.is_some() && self.rng.chance(1, 6) { return self.reserved_stmt(); }
         if c < 22 {
             self.bump("decl");
             let ty = self.ty();
@@ -636,7 +662,22 @@ impl<'a> Gen<'a> {
         if c < 68 {
             self.bump("ins");
             let (op, sig) = *self.rng.pick(&USER_OPS);
-            let args = sig.chars().map(|ch| { let ty = if ch == 'S' { Ty::I } else { Ty::F }; self.expr(ty, edepth, true) }).collect();
+            let pv = self.rng.below(12);
+            if pv == 0 {
+                // the whole instruction as a raw blob
+                self.bump("ins_blob");
+                let blob = "01000000".repeat(sig.len());
+                let mask = if self.rng.chance(1, 2) { Some(0) } else { None };
+                let arg0 = if self.rng.chance(1, 3) { Some(self.rng.range(0, 5) as i32) } else { None };
+                return St::InsBlob { op, blob, mask, arg0 };
+            }
+            let pseudo = pv <= 3;
+            let args: Vec<Ex> = sig.chars().map(|ch| { let ty = if ch == 'S' { Ty::I } else { Ty::F }; self.expr(ty, edepth, !pseudo) }).collect();
+            if pseudo {
+                self.bump("ins_pseudo_args");
+                let (mask, arg0, pop) = match pv { 1 => (true, None, false), 2 => (false, Some(self.rng.range(0, 5) as i32), self.rng.chance(1, 2)), _ => (true, Some(1), true) };
+                return St::InsP { op, args, mask, arg0, pop };
+            }
             return St::Ins { op, args };
         }
         if c < 74 && depth > 0 {
@@ -755,6 +796,27 @@ impl<'a> Printer<'a> {
                 writeln!(out, "{}ins_{}({});", pad, op, a.join(", ")).unwrap()
             },
             St::Anti => writeln!(out, "{}ins_{}();", pad, self.lang.anti_op.unwrap()).unwrap(),
+            St::AntiF(f) => {
+                let ps = match f { 1 => "@blob=\"\"", 2 => "@mask=0", 3 => "@blob=\"01000000\"", _ => "@blob=\"01000000\", @mask=0, @arg0=0" };
+                writeln!(out, "{}ins_{}({});", pad, self.lang.anti_op.unwrap(), ps).unwrap()
+            },
+            St::InsP { op, args, mask, arg0, pop } => {
+                let mut a: Vec<String> = vec![];
+                if *mask {
+                    let m: u32 = args.iter().enumerate().map(|(k, e)| if matches!(e, Ex::ImmI(_) | Ex::ImmF(_)) { 0 } else { 1u32 << k }).sum();
+                    a.push(format!("@mask={}", m));
+                }
+                if let Some(v) = arg0 { a.push(format!("@arg0={}", v)); }
+                if *pop { a.push("@pop=0".to_string()); }
+                a.extend(args.iter().map(|e| self.ex(e)));
+                writeln!(out, "{}ins_{}({});", pad, op, a.join(", ")).unwrap()
+            },
+            St::InsBlob { op, blob, mask, arg0 } => {
+                let mut a = vec![format!("@blob=\"{}\"", blob)];
+                if let Some(m) = mask { a.push(format!("@mask={}", m)); }
+                if let Some(v) = arg0 { a.push(format!("@arg0={}", v)); }
+                writeln!(out, "{}ins_{}({});", pad, op, a.join(", ")).unwrap()
+            },
             St::Block(b) => { writeln!(out, "{}{{", pad).unwrap(); self.block(b, ind + 1, out); writeln!(out, "{}}}", pad).unwrap() },
             St::If { a, cmp, b, then, els } => {
                 let (x, y) = (self.ex(a), self.ex(b));
@@ -805,8 +867,19 @@ fn gen_sub(rng: &mut Rng, lang: &Lang, sigs: &[SubSig], index: usize, name: Stri
     for _ in 0..want_i { if pi.is_empty() { break; } let k = rng.below(pi.len() as u64) as usize; bias.push(pi.remove(k)); }
     for _ in 0..want_f { if pf.is_empty() { break; } let k = rng.below(pf.len() as u64) as usize; bias.push(pf.remove(k)); }
     if rng.chance(1, 2) { bias.extend(lang.other_i.iter().take(1)); bias.extend(lang.other_f.iter().take(1)); }
-    let mut g = Gen { rng, lang, vars: vec![], scope: vec![vec![]], next_def: 0, mention_bias: bias, labels: 0, sigs, self_index: index, hist, budget: size as i32, sw_len: 2 };
+    let mut g = Gen { rng, lang, vars: vec![], scope: vec![vec![]], next_def: 0, mention_bias: bias, labels: 0, sigs, self_index: index, hist, budget: size as i32, sw_len: 2, reserved: None, reserved_mask_only: false };
     let _ = g.self_index;
+    if g.rng.chance(1, 8) {
+        let ty = if lang.pool_f.is_empty() || (!lang.pool_i.is_empty() && g.rng.chance(2, 3)) { Ty::I } else { Ty::F };
+        let pool = if ty == Ty::I { &lang.pool_i } else { &lang.pool_f };
+        if !pool.is_empty() {
+            let r = pool[g.rng.below(pool.len().min(2) as u64) as usize];
+            g.mention_bias.retain(|x| *x != r);
+            g.reserved = Some((r, ty));
+            g.reserved_mask_only = g.rng.chance(2, 3);
+            g.bump("sub_with_reserved_reg");
+        }
+    }
     let mut params = vec![];
     if index < sigs.len() {
         for &t in &sigs[index].params.clone() {
@@ -820,7 +893,14 @@ fn gen_sub(rng: &mut Rng, lang: &Lang, sigs: &[SubSig], index: usize, name: Stri
     if lang.anti_op.is_some() && g.rng.chance(1, 14) {
         g.bump("anti_scratch_ins");
         let k = g.rng.below(body.len() as u64 + 1) as usize;
-        body.insert(k, St::Anti);
+        let form = g.rng.below(5) as u8;
+        if form > 0 { g.bump("anti_scratch_blob_or_mask"); }
+        body.insert(k, if form == 0 { St::Anti } else { St::AntiF(form) });
+    }
+    if g.reserved.is_some() {
+        let st = g.reserved_stmt();
+        let k = g.rng.below(body.len() as u64 + 1) as usize;
+        body.insert(k, st);
     }
     // labels used by cond-gotos go at the end of the body (top level)
     for l in 0..g.labels { body.push(St::Label(l)); }
@@ -1214,6 +1294,7 @@ fn coq_larg(a: &LArg) -> String {
 fn coq_stream(s: &[LStmt]) -> String {
     let parts: Vec<String> = s.iter().map(|x| match x {
         LStmt::Instr { op, args } => format!("Instr {} 0 255 (Known [{}])", z(*op as i64), args.iter().map(coq_larg).collect::<Vec<_>>().join("; ")),
+        LStmt::BlobInstr { op } => format!("Instr {} 0 255 Blob", z(*op as i64)),
         LStmt::Label => "Label 0%N".into(),
         LStmt::Alloc(d) => format!("RegAlloc {}%N", d),
         LStmt::Free(d) => format!("RegFree {}%N", d),
@@ -1290,7 +1371,7 @@ fn run_case(fc: &FileCase, tag: &str, emit_case: bool, hist: &mut BTreeMap<&'sta
     }
     // a scratch-forbidding instruction together with a register-allocated local/temporary must be a diagnostic
     if fc.lang.anti_op.is_some() && obs.ok {
-        let has_anti = |lw: &Lowered| lw.stream.iter().any(|s| matches!(s, LStmt::Instr { op, .. } if Some(*op) == fc.lang.anti_op));
+        let has_anti = |lw: &Lowered| lw.stream.iter().any(|s| matches!(s, LStmt::Instr { op, .. } | LStmt::BlobInstr { op } if Some(*op) == fc.lang.anti_op));
         let has_alloc = |lw: &Lowered| lw.stream.iter().any(|s| matches!(s, LStmt::Alloc(_)));
         let bad = if fc.lang.anti_file { lowered.iter().any(|l| has_anti(l)) && lowered.iter().any(|l| has_alloc(l)) }
                   else { lowered.iter().any(|l| has_anti(l) && has_alloc(l)) };
